@@ -42,14 +42,31 @@
 (*   QueryAlwaysOk     query/status/metrics tasks answer ok regardless     *)
 (*   StopAlwaysOk      stop tasks answer ok whatever the workers said      *)
 (*   NoTimeoutHang     load-state / soft-stop tasks have no deadline       *)
+(*   LoadErrorKeepsTask  a load-state that fails while reading its file    *)
+(*                     answers failure but leaves its gathering task queued*)
+(*   CloseBeforeRead   a worker's hang-up is handled before the answers it *)
+(*                     wrote ahead of it (they are never read)             *)
+(*   DeadlineMasked    a live task without deadline hides the deadlines of *)
+(*                     the other tasks (the loop sleeps with no time-out)  *)
+(*                                                                         *)
+(* Load-state files.  A LoadState request names a file; what the hub does  *)
+(* depends on its SHAPE, a sequence of record kinds: "good" (parses and    *)
+(* the main state accepts it: scattered to every live worker as the next   *)
+(* part), "refused" (parses, ConfigState::dispatch refuses it: skipped),   *)
+(* "bad" (does not parse: load_state stops there, tells the client         *)
+(* failure and cancels the task - what was scattered before stays          *)
+(* scattered, the answers to it are answers to an unknown task).  Missing  *)
+(* is a path that cannot be opened (immediate failure).  Files is the set  *)
+(* of shapes the clients may name.                                         *)
 (***************************************************************************)
-EXTENDS Naturals, Sequences, FiniteSets, TLC
+EXTENDS Integers, Sequences, FiniteSets, TLC
 
 CONSTANTS Workers,      \* set of worker ids, 1..N
           Reqs,         \* set of client request numbers, 1..M
           Verbs,        \* verbs the clients may send (subset of AllVerbs)
           T,            \* worker timeout, in ticks (>= 1)
-          Parts,        \* number of requests a load-state scatters to every worker
+          Parts,        \* most requests a load-state scatters to every worker (bound of the part numbers)
+          FileCodes,    \* the state files a load-state may name, one decimal code per shape (see Files below)
           MaxDup,       \* environment budget: terminal answers beyond the first one per request id (duplicates)
           MaxProc,      \* environment budget: processing notices sent by workers
           MaxQueue,     \* bound on the answers a worker has written that the hub has not read yet
@@ -71,7 +88,8 @@ vars == <<master, wstate, wopen, wreq, toHub, req, tasks, inFlight, out, budget,
 
 AllVerbs  == {"worker", "workerBad", "query", "load", "stopHard", "stopSoft"}
 StopVerbs == {"stopHard", "stopSoft"}
-AllDeviations == {"TimedOutIgnored", "DupCounted", "StopDoubleAnswer", "QueryAlwaysOk", "StopAlwaysOk", "NoTimeoutHang"}
+AllDeviations == {"TimedOutIgnored", "DupCounted", "StopDoubleAnswer", "QueryAlwaysOk", "StopAlwaysOk", "NoTimeoutHang",
+                  "LoadErrorKeepsTask", "CloseBeforeRead", "DeadlineMasked"}
 
 ASSUME Verbs \subseteq AllVerbs /\ Deviations \subseteq AllDeviations /\ T >= 1 /\ Parts >= 1 /\ MaxDup \in Nat /\ MaxProc \in Nat
 
@@ -82,9 +100,32 @@ Id(w, r, p) == [w |-> w, r |-> r, p |-> p]
 ClientOf(r) == (r + 1) \div 2
 Prev(r) == IF r % 2 = 0 /\ (r - 1) \in Reqs THEN r - 1 ELSE 0
 
-PartsOf(kind) == IF kind = "load" THEN 1..Parts ELSE {1}
+\* ---- state files
+RecKinds  == {"good", "refused", "bad"}
+Missing   == <<"missing">>
+WholeFile == [i \in 1..Parts |-> "good"]
+NoFile    == <<>>                                  \* the `file` of a request that is not a load-state
+\* index of the first record that does not parse (Len + 1: none)
+BadAt(f)    == IF \E i \in 1..Len(f) : f[i] = "bad"
+               THEN CHOOSE i \in 1..Len(f) : f[i] = "bad" /\ \A j \in 1..(i - 1) : f[j] # "bad"
+               ELSE Len(f) + 1
+Damaged(f)  == BadAt(f) <= Len(f)
+\* records scattered before load_state stops (or reaches the end of the file)
+Accepted(f) == IF f = Missing THEN 0 ELSE Cardinality({i \in 1..(BadAt(f) - 1) : f[i] = "good"})
+IsFile(f)   == f = Missing \/ (\A i \in 1..Len(f) : f[i] \in RecKinds)
+\* A configuration file cannot hold sequences: a shape is written as a decimal number, one digit per record
+\* (1 good, 2 refused, 3 bad), e.g. 113 = two good records then a damaged one; 0 = empty file, 9 = Missing.
+RECURSIVE DecodeFile(_)
+DecodeFile(c) == IF c = 9 THEN Missing
+                 ELSE IF c = 0 THEN <<>>
+                 ELSE Append(DecodeFile(c \div 10), CASE c % 10 = 1 -> "good" [] c % 10 = 2 -> "refused" [] OTHER -> "bad")
+Files       == {DecodeFile(c) : c \in FileCodes}
+FilesOf(v)  == IF v = "load" THEN Files ELSE {NoFile}
 
-NoTask == [st |-> "none", client |-> 0, kind |-> "none", targets |-> {}, expected |-> 0,
+ASSUME FileCodes \subseteq Nat /\ \A c \in FileCodes : c = 9 \/ \A k \in 0..8 : (c \div (10^k)) % 10 \in 0..3
+ASSUME \A f \in Files : IsFile(f) /\ Accepted(f) <= Parts
+
+NoTask == [st |-> "none", client |-> 0, kind |-> "none", targets |-> {}, nparts |-> 0, expected |-> 0,
            ok |-> 0, errors |-> 0, age |-> 0, timed |-> FALSE]
 
 Final(s) == s \in {"ok", "failure"}
@@ -99,7 +140,7 @@ Init ==
   /\ wopen = [w \in Workers |-> TRUE]
   /\ wreq = [w \in Workers |-> {}]
   /\ toHub = [w \in Workers |-> <<>>]
-  /\ req = [r \in Reqs |-> [st |-> "idle", verb |-> "none"]]
+  /\ req = [r \in Reqs |-> [st |-> "idle", verb |-> "none", file |-> NoFile]]
   /\ tasks = [r \in Reqs |-> NoTask]
   /\ inFlight = {}
   /\ out = [r \in Reqs |-> <<>>]
@@ -111,13 +152,13 @@ Init ==
 
 \* Scope: a stop verb is only sent when nothing else is pending, and nothing is sent once a stop was
 \* sent (a stopping main process drops the other sessions; that is not what C09 is about).
-Client_Send(r, v) ==
-  /\ v \in Verbs
+Client_Send(r, v, f) ==
+  /\ v \in Verbs /\ f \in FilesOf(v)
   /\ req[r].st = "idle"
   /\ Prev(r) # 0 => HasFinal(Prev(r))
   /\ \A q \in Reqs : req[q].st # "idle" => req[q].verb \notin StopVerbs
   /\ v \in StopVerbs => \A q \in Reqs : req[q].st = "idle" \/ HasFinal(q)
-  /\ req' = [req EXCEPT ![r] = [st |-> "sent", verb |-> v]]
+  /\ req' = [req EXCEPT ![r] = [st |-> "sent", verb |-> v, file |-> f]]
   /\ UNCHANGED <<master, wstate, wopen, wreq, toHub, tasks, inFlight, out, budget, firstAns>>
 
 ---------------------------------------------------------------------------
@@ -125,15 +166,27 @@ Client_Send(r, v) ==
 
 Targets == {w \in Workers : wstate[w] # "stopped"}            \* scatter_on's filter
 
-\* scatter_on for every part: one in-flight id per live worker and part, expected += count
-ScatterOn(r, kind, timed) ==
+\* scatter_on for every part 1..n: one in-flight id per live worker and part, expected += count
+\* (n = 0: a task that waits for nobody; has_finished holds at once)
+ScatterIds(r, n) == {Id(w, r, p) : w \in Targets, p \in 1..n}
+Deliver(ids) == [w \in Workers |-> IF w \in Targets /\ wopen[w] THEN wreq[w] \cup {i \in ids : i.w = w} ELSE wreq[w]]
+ScatterOn(r, kind, n, timed) ==
   LET tg == Targets
-      ids == {Id(w, r, p) : w \in tg, p \in PartsOf(kind)}
+      ids == ScatterIds(r, n)
   IN /\ tasks' = [tasks EXCEPT ![r] = [st |-> "live", client |-> ClientOf(r), kind |-> kind, targets |-> tg,
-                                        expected |-> Cardinality(ids), ok |-> 0, errors |-> 0, age |-> 0,
-                                        timed |-> timed]]
+                                        nparts |-> n, expected |-> Cardinality(ids), ok |-> 0, errors |-> 0,
+                                        age |-> 0, timed |-> timed]]
      /\ inFlight' = inFlight \cup ids
-     /\ wreq' = [w \in Workers |-> IF w \in tg /\ wopen[w] THEN wreq[w] \cup {i \in ids : i.w = w} ELSE wreq[w]]
+     /\ wreq' = Deliver(ids)
+
+\* load_state's error arm: the records before the damage were scattered, the task is cancelled
+\* (Server::cancel_task).  The in-flight ids the code leaves behind point to a task that no longer
+\* exists - Hub_HandleWorkerResponse treats that exactly like an unknown id, so they are not kept here.
+ScatterCancelled(r, kind, n) ==
+  /\ tasks' = [tasks EXCEPT ![r] = [NoTask EXCEPT !.st = "done", !.client = ClientOf(r), !.kind = kind,
+                                                  !.targets = Targets, !.nparts = n]]
+  /\ wreq' = Deliver(ScatterIds(r, n))
+  /\ UNCHANGED inFlight
 
 HasDeadline(kind) == ~(kind \in {"load", "stopSoft"} /\ "NoTimeoutHang" \in Deviations)
 
@@ -147,15 +200,26 @@ Hub_HandleClientRequest(r) ==
             /\ UNCHANGED <<master, tasks, inFlight, wreq>>
        [] v \in {"worker", "query"} ->
             /\ out' = [out EXCEPT ![r] = Append(@, "processing")]
-            /\ ScatterOn(r, v, TRUE)
+            /\ ScatterOn(r, v, 1, TRUE)
             /\ UNCHANGED master
-       [] v = "load" ->               \* "Parsing state file", scatter_on per request, "Applying state file"
+       [] v = "load" /\ req[r].file = Missing ->      \* File::open fails: immediate failure, no task
+            /\ out' = [out EXCEPT ![r] = Append(@, "failure")]
+            /\ UNCHANGED <<master, tasks, inFlight, wreq>>
+       [] v = "load" /\ req[r].file # Missing /\ ~Damaged(req[r].file) ->
+            \* "Parsing state file", scatter_on per accepted record, "Applying state file"
             /\ out' = [out EXCEPT ![r] = @ \o <<"processing", "processing">>]
-            /\ ScatterOn(r, v, HasDeadline(v))
+            /\ ScatterOn(r, v, Accepted(req[r].file), HasDeadline(v))
+            /\ UNCHANGED master
+       [] v = "load" /\ req[r].file # Missing /\ Damaged(req[r].file) ->
+            \* "Parsing state file", scatter_on per record accepted before the damage, failure
+            /\ out' = [out EXCEPT ![r] = @ \o <<"processing", "failure">>]
+            /\ IF "LoadErrorKeepsTask" \in Deviations
+               THEN ScatterOn(r, v, Accepted(req[r].file), HasDeadline(v))
+               ELSE ScatterCancelled(r, v, Accepted(req[r].file))
             /\ UNCHANGED master
        [] v \in StopVerbs ->
             /\ out' = [out EXCEPT ![r] = Append(@, "processing")]
-            /\ ScatterOn(r, v, HasDeadline(v))
+            /\ ScatterOn(r, v, 1, HasDeadline(v))
             /\ master' = "workersStopping"
   /\ UNCHANGED <<wstate, wopen, toHub, budget, firstAns>>
 
@@ -193,7 +257,7 @@ Worker_Close(w) ==
 
 Hub_HandleWorkerResponse(w) ==
   /\ HubUp
-  /\ toHub[w] # <<>>
+  /\ toHub[w] # <<>> /\ wstate[w] # "stopped"          \* a stopped worker's session is never ticked again
   /\ LET m == Head(toHub[w])
          r == m.id.r
      IN /\ toHub' = [toHub EXCEPT ![w] = Tail(@)]
@@ -210,10 +274,13 @@ Hub_HandleWorkerResponse(w) ==
                        /\ UNCHANGED out
   /\ UNCHANGED <<master, wstate, wopen, wreq, req, budget, firstAns>>
 
-\* WorkerSession::ready returns CloseSession only when no response is left to read
+\* WorkerSession::ready returns CloseSession only when no response is left to read: an answer and the
+\* hang-up that follows it may well arrive in one poll turn, the answer is handled first.
+\* (CloseBeforeRead: the hang-up wins; a stopped worker is never read again, toHub[w] stays for ever.)
 Hub_HandleWorkerClose(w) ==
   /\ HubUp
-  /\ ~wopen[w] /\ toHub[w] = <<>> /\ wstate[w] # "stopped"
+  /\ ~wopen[w] /\ wstate[w] # "stopped"
+  /\ toHub[w] = <<>> \/ "CloseBeforeRead" \in Deviations
   /\ wstate' = [wstate EXCEPT ![w] = "stopped"]
   /\ UNCHANGED <<master, wopen, wreq, toHub, req, tasks, inFlight, out, budget, firstAns>>
 
@@ -251,6 +318,10 @@ Hub_FinishTask(r, timedOut) ==
   /\ tasks[r].st = "live"
   /\ timedOut = ~HasFinished(tasks[r])                    \* has_finished is tested first
   /\ timedOut => tasks[r].timed /\ tasks[r].age >= T
+  \* every deadline fires by itself, whatever else is pending: the loop sleeps until the EARLIEST deadline
+  \* of the tasks that have one.  (DeadlineMasked: one live task without deadline and the loop sleeps
+  \* without time-out; nothing wakes it on a quiet socket.)
+  /\ (timedOut /\ "DeadlineMasked" \in Deviations) => \A q \in Reqs : tasks[q].st = "live" => tasks[q].timed
   /\ out' = [out EXCEPT ![r] = @ \o OnFinish(tasks[r], timedOut)]
   \* the task is dropped; only what the properties refer to is kept (client, kind, targets)
   /\ tasks' = [tasks EXCEPT ![r] = [@ EXCEPT !.st = "done", !.expected = 0, !.ok = 0, !.errors = 0, !.age = 0,
@@ -266,7 +337,7 @@ HubNext ==
   \/ \E r \in Reqs, b \in BOOLEAN : Hub_FinishTask(r, b)
 
 EnvNext ==
-  \/ \E r \in Reqs, v \in Verbs : Client_Send(r, v)
+  \/ \E r \in Reqs, v \in Verbs : \E f \in FilesOf(v) : Client_Send(r, v, f)
   \/ \E w \in Workers : Worker_Close(w)
   \/ \E w \in Workers, id \in Ids, st \in {"ok", "failure", "processing"} : Worker_Answer(w, id, st)
   \/ \E d \in 1..T : Tick(d)
@@ -291,9 +362,11 @@ TypeOK ==
   /\ wopen \in [Workers -> BOOLEAN]
   /\ \A w \in Workers : wreq[w] \subseteq Ids /\ \A i \in wreq[w] : i.w = w
   /\ \A r \in Reqs : req[r].st \in {"idle", "sent", "handled"} /\ req[r].verb \in AllVerbs \cup {"none"}
+                     /\ req[r].file \in Files \cup {NoFile}
   /\ \A r \in Reqs : /\ tasks[r].st \in {"none", "live", "done"}
                      /\ tasks[r].age \in 0..T
                      /\ tasks[r].targets \subseteq Workers
+                     /\ tasks[r].nparts \in 0..Parts
   /\ inFlight \subseteq Ids
   /\ \A r \in Reqs : \A i \in 1..Len(out[r]) : out[r][i] \in Statuses
 
@@ -305,10 +378,17 @@ P_C09a_AtMostOneFinal ==
 P_C09b_OkMeansAllAcked ==
   \A r \in Reqs :
     (HasFinal(r) /\ Finals(r)[1] = "ok" /\ tasks[r].st # "none") =>
-      \A w \in tasks[r].targets, p \in PartsOf(tasks[r].kind) : firstAns[Id(w, r, p)] \in {"ok", "slow_ok"}
+      \A w \in tasks[r].targets, p \in 1..tasks[r].nparts : firstAns[Id(w, r, p)] \in {"ok", "slow_ok"}
 
 \* (c) liveness: every request that was sent gets its final answer (checked under FairSpec)
 P_C09c_EveryRequestAnswered == \A r \in Reqs : (req[r].st = "sent") ~> HasFinal(r)
+
+\* (c') the same for the requests whose task has a deadline: holds even under NoTimeoutHang, which excuses
+\* only the task without deadline itself - never the deadlines of the tasks pending beside it
+P_C09c_DeadlinedAnswered == \A r \in Reqs : (req[r].st = "sent" /\ HasDeadline(req[r].verb)) ~> HasFinal(r)
+
+\* (f) the hub never gives up a worker while answers that worker wrote are unread
+P_C09f_NoAnswerDropped == \A w \in Workers : wstate[w] = "stopped" => toHub[w] = <<>>
 
 \* (d) answers go to the client that asked
 P_C09d_RightClient == \A r \in Reqs : tasks[r].st # "none" => tasks[r].client = ClientOf(r)
@@ -322,5 +402,5 @@ P_C09_AnswersFollowTasks ==
                   /\ tasks[r].st = "live" => ~HasFinal(r)
 
 P_C09 == P_C09a_AtMostOneFinal /\ P_C09b_OkMeansAllAcked /\ P_C09d_RightClient /\ P_C09e_NoStaleInFlight
-         /\ P_C09_AnswersFollowTasks
+         /\ P_C09f_NoAnswerDropped /\ P_C09_AnswersFollowTasks
 =============================================================================
